@@ -12,6 +12,8 @@ def run(tier):
     sfx = "" if quick else "_thorough"
     rt = os.path.join(cargo_build("rt"), "rt")
     tb = ts = nn = 0
+    # the design: slice and cell operations interleaved, every reachable state (the generator configurations keep them apart)
+    lib.mc_step(c, "MC_Views", "MC_Views.cfg", workers=4, timeout=900, what="Views spec")
     # slices: all conversion/write chains, four element types
     j, n = lib.gen_step(c, "Gen_Views", "Gen_Views_slices%s.cfg" % sfx, "gen_views_slices")
     nn += n
